@@ -1056,7 +1056,7 @@ fn wire_exec(kind: &str, bytes: Vec<u8>) -> String {
                 Some(b) => u8::from(b),
                 None => 2,
             };
-            format!("raw={} res={} re={re}", block_s(&r), res.replace(' ', "_"))
+            format!("raw={} res={} re={re}", block_s(&r), res.replacen(' ', "@", 1))
         }
         "filtered" => {
             let r = decode!(raw::FilteredSequencerBlock);
@@ -1076,7 +1076,7 @@ fn wire_exec(kind: &str, bytes: Vec<u8>) -> String {
                 Some(b) => u8::from(b),
                 None => 2,
             };
-            format!("raw={} res={} re={re}", filtered_s(&r), res.replace(' ', "_"))
+            format!("raw={} res={} re={re}", filtered_s(&r), res.replacen(' ', "@", 1))
         }
         "meta" => {
             let r = decode!(raw::SubmittedMetadata);
@@ -1096,7 +1096,7 @@ fn wire_exec(kind: &str, bytes: Vec<u8>) -> String {
                 Some(b) => u8::from(b),
                 None => 2,
             };
-            format!("raw={} res={} re={re}", meta_s(&r), res.replace(' ', "_"))
+            format!("raw={} res={} re={re}", meta_s(&r), res.replacen(' ', "@", 1))
         }
         "blob" => {
             let r = decode!(raw::SubmittedRollupData);
@@ -1116,7 +1116,7 @@ fn wire_exec(kind: &str, bytes: Vec<u8>) -> String {
                 Some(b) => u8::from(b),
                 None => 2,
             };
-            format!("raw={} res={} re={re}", blob_s(&r), res.replace(' ', "_"))
+            format!("raw={} res={} re={re}", blob_s(&r), res.replacen(' ', "@", 1))
         }
         "tx" => {
             let r = decode!(rawtx::Transaction);
@@ -1137,7 +1137,7 @@ fn wire_exec(kind: &str, bytes: Vec<u8>) -> String {
                     let same = raw2 == r;
                     let again = rawtx::Transaction::decode(&*raw2.encode_to_vec()).ok() == Some(raw2.clone());
                     let idem = Transaction::try_from_raw(raw2.clone()).map(|x| x.to_raw() == raw2).unwrap_or(false);
-                    ((if same { "ok_same" } else { "ok_differs" }).to_string(), u8::from(again && idem))
+                    ((if same { "ok@same" } else { "ok@differs" }).to_string(), u8::from(again && idem))
                 }
             };
             format!("raw={dump} res={res} re={re}")
@@ -1153,7 +1153,7 @@ fn wire_exec(kind: &str, bytes: Vec<u8>) -> String {
                     let raw2 = v.into_raw();
                     let again = raw::RollupData::decode(&*raw2.encode_to_vec()).ok() == Some(raw2.clone());
                     let idem = RollupData::try_from_raw(raw2.clone()).map(|x| x.into_raw() == raw2).unwrap_or(false);
-                    ((if raw2 == r { "ok_same" } else { "ok_differs" }).to_string(), u8::from(again && idem))
+                    ((if raw2 == r { "ok@same" } else { "ok@differs" }).to_string(), u8::from(again && idem))
                 }
             };
             format!("raw={dump} res={res} re={re}")
